@@ -197,12 +197,20 @@ func c10Windows(x *kit.Ctx, tag string, file []byte, path string, payload []byte
 			if err != nil || !bytes.Equal(all, payload) {
 				x.Fail("c10:window-data:"+tag, "%s: ReadAll(DataReader) = %d bytes, err %v; payload is %d bytes, equal prefix=%v", o.name, len(all), err, len(payload), bytes.HasPrefix(all, payload))
 			}
-			if end, err := dr.Seek(0, io.SeekEnd); err != nil || end != int64(len(payload)) {
+			// The statement fixes the window's extent, not that it can seek relative to its end
+			// (SectionReader "is not guaranteed to be an io.SectionReader"): a refusal is recorded,
+			// an answer must be the payload length.
+			if end, err := dr.Seek(0, io.SeekEnd); err != nil {
+				x.Outcome("beyond-statement:window-seekend-unsupported")
+			} else if end != int64(len(payload)) {
 				x.Fail("c10:window-data-seekend:"+tag, "%s: DataReader.Seek(0, SeekEnd) = %d, %v; payload is %d bytes", o.name, end, err, len(payload))
 			}
 			buf := make([]byte, 10)
-			if n, err := dr.ReadAt(buf, int64(len(payload))); n != 0 || err != io.EOF {
-				x.Fail("c10:window-data-readat-end:"+tag, "%s: DataReader.ReadAt at the payload end = %d, %v; want 0, EOF (bytes %x)", o.name, n, err, buf[:n])
+			// io.ReaderAt: n < len(p) comes with a non-nil error; which error is not stated anywhere
+			if n, err := dr.ReadAt(buf, int64(len(payload))); n != 0 || err == nil {
+				x.Fail("c10:window-data-readat-end:"+tag, "%s: DataReader.ReadAt at the payload end = %d, %v; want 0 bytes and an error (bytes %x)", o.name, n, err, buf[:n])
+			} else if err != io.EOF {
+				x.Outcome("beyond-statement:window-readat-end-error-not-EOF")
 			}
 			if len(payload) >= 5 {
 				n, err := dr.ReadAt(buf, int64(len(payload)-5))
@@ -250,8 +258,12 @@ func c10Windows(x *kit.Ctx, tag string, file []byte, path string, payload []byte
 }
 
 // c10CheckWrap is the oracle for one wrapped output: pragma ++ header(51, len(source), 51+len(source))
-// ++ source ++ index(source sections).
-func c10CheckWrap(x *kit.Ctx, cs C10Case, via string, got, source, wantIdx []byte, dup, mayBeFull bool) {
+// ++ source ++ index(source sections). When the caller passed UseDataPadding(7)/UseIndexPadding(3)
+// (outside the statement's quantifier; WrapV1 documents "no padding") each of the two paddings may
+// be ignored or honoured: the layout is then read from the header, it must be one of the legal ones,
+// and everything but the content of the padding bytes is compared. It returns the data and index
+// offsets of the output (ok=false: the output is too malformed to look at further).
+func c10CheckWrap(x *kit.Ctx, cs C10Case, via string, got, source, wantIdx []byte, dup, mayBeFull bool) (dOff, iOff uint64, ok bool) {
 	sig := func(what string) string {
 		if cs.Tail != "" {
 			return "c10:wrap-null-padded-" + what
@@ -261,36 +273,59 @@ func c10CheckWrap(x *kit.Ctx, cs C10Case, via string, got, source, wantIdx []byt
 	n := uint64(len(source))
 	if uint64(len(got)) < 51+n || !bytes.Equal(got[:11], refcar.Pragma) {
 		x.Fail(sig("malformed"), "%s output (%d bytes) is shorter than pragma+header+source (%d) or lacks the pragma", via, len(got), 51+n)
-		return
-	}
-	if !bytes.Equal(got[51:51+n], source) {
-		x.Fail(sig("payload"), "%s does not carry the %d source bytes unmodified at offset 51", via, n)
+		return 0, 0, false
 	}
 	h := refcar.ParseV2Header(got[11:51])
-	if h.DataOffset != 51 || h.DataSize != n || h.IndexOffset != 51+n {
-		x.Fail(sig("header"), "%s header %+v does not describe the layout (source %d bytes, no padding)", via, h, n)
+	var dp, ip uint64
+	if cs.PadOpts {
+		if h.DataOffset == 51+7 {
+			dp = 7
+		}
+		if h.IndexOffset == 51+dp+n+3 {
+			ip = 3
+		}
+		if dp != 0 || ip != 0 {
+			x.Outcome("beyond-statement:wrap-padding-options-honoured")
+		}
+	}
+	dOff, iOff = 51+dp, 51+dp+n+ip
+	if uint64(len(got)) < iOff {
+		x.Fail(sig("malformed"), "%s output (%d bytes) is shorter than pragma+header+padding+source (%d)", via, len(got), iOff)
+		return 0, 0, false
+	}
+	if !bytes.Equal(got[dOff:dOff+n], source) {
+		x.Fail(sig("payload"), "%s does not carry the %d source bytes unmodified at offset %d", via, n, dOff)
+	}
+	if h.DataOffset != dOff || h.DataSize != n || h.IndexOffset != iOff {
+		x.Fail(sig("header"), "%s header %+v does not describe the layout (source %d bytes, data padding %d, index padding %d)", via, h, n, dp, ip)
 	}
 	if h.CharLo != 0 || h.CharHi&^(1<<7) != 0 || (h.FullyIndexed() && !mayBeFull) {
 		x.Fail(sig("characteristics"), "%s characteristics %016x %016x: reserved bits set, or fully-indexed claimed although identity sections are not indexed", via, h.CharHi, h.CharLo)
 	}
-	gotIdx := got[51+n:]
+	gotIdx := got[iOff:]
 	ok, err := c10IdxEqual(gotIdx, wantIdx, dup)
 	if !ok {
 		x.Fail(sig("index"), "%s index differs from the reference index of the source's sections (err %v): %x want %x", via, err, clip(gotIdx), clip(wantIdx))
 	}
 	// whole-file comparison (the field checks above are diagnostics of this one)
-	want := refcar.EncodeV2(source, 0, 0, wantIdx, h.FullyIndexed() && mayBeFull)
+	want := refcar.EncodeV2(source, dp, ip, wantIdx, h.FullyIndexed() && mayBeFull)
+	if len(got) == len(want) {
+		// the content of padding is not defined by the format
+		copy(want[51:dOff], got[51:dOff])
+		copy(want[dOff+n:iOff], got[dOff+n:iOff])
+	}
 	if len(got) != len(want) {
 		x.Fail(sig("length"), "%s output is %d bytes want %d", via, len(got), len(want))
 	} else if !dup && !bytes.Equal(got, want) {
 		x.Fail(sig("bytes"), "%s output differs from pragma ++ header ++ source ++ index", via)
-	} else if dup && !bytes.Equal(got[:51+n], want[:51+n]) {
+	} else if dup && !bytes.Equal(got[:iOff], want[:iOff]) {
 		x.Fail(sig("bytes"), "%s output differs from pragma ++ header ++ source before the index", via)
 	}
 	// and the strict decoder agrees (padding bytes, index well-formed, nothing trailing)
 	if _, err := refcar.DecodeFile(got, cs.Tail != ""); err != nil {
 		x.Fail(sig("malformed"), "%s output malformed: %v", via, err)
 	}
+	return dOff, iOff, true
 }
 
 func c10Wrap(cs C10Case, x *kit.Ctx, payload []byte, pl *refcar.Payload) {
@@ -381,7 +416,11 @@ func c10Wrap(cs C10Case, x *kit.Ctx, payload []byte, pl *refcar.Payload) {
 			df.Close()
 		}
 		if err != nil {
-			if cs.Tail != "" {
+			if cs.Tail == "zsec" {
+				// payload ++ 0x00 ++ a further section is neither a valid CARv1 nor a null-padded
+				// one: refusing it is outside the statement (accepting it is judged as before)
+				x.Outcome("beyond-statement:wrap-refuses-section-after-null-padding")
+			} else if cs.Tail != "" {
 				x.Fail("c10:wrap-null-padded-error", "WrapV1 with ZeroLengthSectionAsEOF fails on a null-padded CARv1: %v", err)
 			} else {
 				x.Fail("c10:wrap-error", "WrapV1 fails on a valid CARv1: %v", err)
@@ -406,11 +445,9 @@ func c10Wrap(cs C10Case, x *kit.Ctx, payload []byte, pl *refcar.Payload) {
 			}
 		}
 	}
-	c10CheckWrap(x, cs, via, got, source, wantIdx, dup, mayBeFull)
-
 	// the windows of the wrapped archive
-	if uint64(len(got)) >= 51+uint64(len(source)) {
-		c10Windows(x, "wrapped", got, "", source, 51, got[51+len(source):])
+	if dOff, iOff, ok := c10CheckWrap(x, cs, via, got, source, wantIdx, dup, mayBeFull); ok {
+		c10Windows(x, "wrapped", got, "", source, dOff, got[iOff:])
 	}
 	// extract(wrap(x)) = x
 	if !onDisk {
@@ -509,8 +546,16 @@ func c10Extract(cs C10Case, x *kit.Ctx, payload []byte, pl *refcar.Payload) {
 			x.Fail("c10:extract-touches-source", "ExtractV1File modified its source")
 		}
 		if shared && !bytes.Equal(after, payload) {
-			// the destination is another name of the source: in-place conversion
-			x.Fail("c10:extract-bytes:"+cs.Dest, "in-place extraction through another name of the source left %d bytes, payload is %d bytes", len(after), len(payload))
+			// The destination is another name of the source. Through the same directory entry
+			// (same path, ./ spelling) the source path must now hold the payload. Through a hard
+			// link or a symlink the statement fixes only what the destination name yields (checked
+			// above): the library may convert the shared file in place, or put a new file under the
+			// destination name, which leaves the source exactly as it was.
+			if (cs.Dest == "hardlink" || cs.Dest == "symlink") && bytes.Equal(after, file) {
+				x.Outcome("beyond-statement:extract-replaces-destination-name")
+			} else {
+				x.Fail("c10:extract-bytes:"+cs.Dest, "in-place extraction through another name of the source left %d bytes, payload is %d bytes (and not the untouched source)", len(after), len(payload))
+			}
 		}
 	}
 	if cs.Dest == "symlink" {
@@ -548,19 +593,37 @@ func c10Replace(x *kit.Ctx, p string, cur *[]byte, base int, curName, newName, m
 	if (err != nil || len(oldHdr) != len(newHdr)) && !bytes.Equal(after, *cur) {
 		x.Fail("c10:replace-touched", "%sReplaceRootsInFile(%s -> %s) must not / did not replace (err %v) but modified the file", step, curName, newName, err)
 	}
+	if tooLarge && err == nil {
+		// The statement does not mention MaxAllowedHeaderSize (a version that measures the current
+		// header without decoding it has nothing to limit): recorded, and the call is judged like
+		// one without the option.
+		x.Outcome("beyond-statement:maxhdr-ignored")
+		tooLarge = false
+	}
 	switch {
 	case tooLarge:
-		if err == nil {
-			x.Fail("c10:replace-maxhdr-accepted", "%sMaxAllowedHeaderSize is below the current header size but ReplaceRootsInFile(%s -> %s) succeeded", step, curName, newName)
-		}
 		x.Outcome("refused-maxhdr")
 	case len(oldHdr) == len(newHdr):
+		// the header bytes of the new root list; a nil list may be written as null or as an empty
+		// list (same length, both decode to "no roots")
+		hdrs := [][]byte{newHdr}
+		if newNil {
+			hdrs = append(hdrs, refcar.EncodeHeader([][]byte{}, false))
+		}
 		want := append([]byte{}, (*cur)...)
-		copy(want[base:], newHdr)
+		matched := false
+		for _, hb := range hdrs {
+			copy(want[base:], hb)
+			if bytes.Equal(after, want) {
+				matched = true
+				break
+			}
+		}
 		if err != nil {
 			x.Fail("c10:replace-refused", "%sreplacement header (%s -> %s) has the same length (%d) but ReplaceRootsInFile failed: %v", step, curName, newName, len(newHdr), err)
-		} else if !bytes.Equal(after, want) {
+		} else if !matched {
 			x.Fail("c10:replace-bytes", "%safter replacement (%s -> %s) the file differs from 'only the header bytes changed'", step, curName, newName)
+			copy(want[base:], newHdr)
 		}
 		x.Outcome("replaced")
 		if err == nil {
@@ -964,10 +1027,10 @@ func init() {
 		Gen:    genC10,
 		Run:    runC10,
 		Decode: kit.DecodeAs[C10Case],
-		Rule: "WRAP: every CARv1 up to the bound -> WrapV1 over {both index codecs} x {StoreIdentityCIDs} x source {bytes.Reader, *os.File, bare ReadSeeker with 1-byte reads / 1000-byte reads / data+EOF on the last read} x destination {bytes.Buffer, bare Writer, *os.File} x {ZeroLengthSectionAsEOF} x {UseDataPadding(7)+UseIndexPadding(3), which must be ignored}, " +
-			"sources followed by {1 zero, 5 zeros, zero + a further section} under ZeroLengthSectionAsEOF, WrapV1File into {absent, larger pre-existing} destination; oracle: output == pragma ++ header(51, len, 51+len, no reserved bits) ++ source ++ canonical index of the sections (byte-exact; equal-digest runs normalised), strict re-decode, source file untouched, DataReader/IndexReader of the output, ExtractV1File(output) == source. " +
-			"EXTRACT: every CARv2 (data padding {0,1,7,4096,len(payload)+200}, index {none, at +0, +3, +4096}, index codec x FullyIndexed flavours) -> DataReader/IndexReader windows via OpenReader (mmap), NewReader(*os.File), NewReader(bytes.Reader) (content, SeekEnd, ReadAt at/across the end, independence, nil index reader) and ExtractV1File into {absent, larger, smaller, same path, hard link to source, ./ spelling of source, symlink to source}: exactly the payload, source untouched unless it is the destination. " +
-			"REPLACE: ReplaceRootsInFile for every ordered pair of 19 root lists (equal/different encoded size, nil vs empty, CIDv0 vs v1, identity-CID lists of equal total size but different count / per-root size) on CARv1 and CARv2 (data padding {0,7,4096,len+200}, with/without index), with MaxAllowedHeaderSize {unset, below the current header, = header}; every sequence of 3 replacements on one file (state across calls); any error leaves the file byte-identical. " +
+		Rule: "WRAP: every CARv1 up to the bound -> WrapV1 over {both index codecs} x {StoreIdentityCIDs} x source {bytes.Reader, *os.File, bare ReadSeeker with 1-byte reads / 1000-byte reads / data+EOF on the last read} x destination {bytes.Buffer, bare Writer, *os.File} x {ZeroLengthSectionAsEOF} x {UseDataPadding(7)+UseIndexPadding(3): ignored or honoured, layout then read from the header}, " +
+			"sources followed by {1 zero, 5 zeros, zero + a further section} under ZeroLengthSectionAsEOF (zero + section may be refused), WrapV1File into {absent, larger pre-existing} destination; oracle: output == pragma ++ header(51, len, 51+len, no reserved bits) ++ source ++ canonical index of the sections (byte-exact; equal-digest runs normalised), strict re-decode, source file untouched, DataReader/IndexReader of the output, ExtractV1File(output) == source. " +
+			"EXTRACT: every CARv2 (data padding {0,1,7,4096,len(payload)+200}, index {none, at +0, +3, +4096}, index codec x FullyIndexed flavours) -> DataReader/IndexReader windows via OpenReader (mmap), NewReader(*os.File), NewReader(bytes.Reader) (content, SeekEnd when supported, ReadAt at/across the end, independence, nil index reader) and ExtractV1File into {absent, larger, smaller, same path, hard link to source, ./ spelling of source, symlink to source}: exactly the payload under the destination name, source untouched unless it is the destination (through a hard link or symlink: converted in place or left untouched). " +
+			"REPLACE: ReplaceRootsInFile for every ordered pair of 19 root lists (equal/different encoded size, nil vs empty, CIDv0 vs v1, identity-CID lists of equal total size but different count / per-root size) on CARv1 and CARv2 (data padding {0,7,4096,len+200}, with/without index), with MaxAllowedHeaderSize {unset, below the current header: refusal or, recorded as beyond-statement, judged as without the option; = header}, a nil root list may be written as null or as an empty list; every sequence of 3 replacements on one file (state across calls); any error leaves the file byte-identical. " +
 			"Sequences longer than the full-product length use the reduced matrices c10WrapReduced/c10ExtractReduced (quick: len 2; thorough: len 3). Non-trivial = non-empty payload or any replacement",
 		Bound: func(tier string) map[string]any {
 			big := []string{"L16383", "L16384+a", "L40000", "L70000+a", "1100 sections"}
@@ -982,6 +1045,8 @@ func init() {
 			"inputs outside 'valid' (ExtractV1File on a CARv1, CARv2 with inner header version 2) are only checked for 'an error leaves the file untouched'",
 			"the order of index records with equal digests in one bucket is not specified: such indexes are compared after normalisation",
 			"FullyIndexed may be set by WrapV1 only when every section is indexed; all other characteristics bits must be zero",
+			"beyond the statement, recorded as beyond-statement:* outcomes and never violations: WrapV1 honouring padding options, WrapV1 refusing payload++0x00++section, MaxAllowedHeaderSize not enforced by ReplaceRootsInFile, ExtractV1File putting a new file under a destination name that is a hard link/symlink of the source, DataReader windows that refuse SeekEnd or report the end with an error other than io.EOF",
+			"the content of padding bytes is not compared",
 		},
 	})
 }
